@@ -134,12 +134,53 @@ def q_mkdtemp(ev, state, node):
         except Unsupported:
             if not ev.ctx.lenient:
                 raise
-    n = fresh(T.NAME, 'tmpdir')
+    return _new_scratch_entry(ev, state, node, 'tmpdir')
+
+
+def _dir_argument(ev, state, node):
+    for k in node.keywords:
+        if k.arg == 'dir':
+            try:
+                return ev.eval(state, k.value)
+            except Unsupported:
+                return None
+    return None
+
+
+def _new_scratch_entry(ev, state, node, hint):
+    """fresh name (A-TMP).  It becomes a live scratch entry unless it is created inside a directory
+    that is itself a live entry of this call (then removing that directory removes it too)."""
+    n = fresh(T.NAME, hint)
     ref, live = _ghost_get(state, 'live')
-    if ref is not None:
-        state.assume(z3.Not(set_has(live)[n.term]))
-        write_ref(state, ref, set_add(live, n.term))
+    if ref is None:
+        return n
+    state.assume(z3.Not(set_has(live)[n.term]))
+    d = _dir_argument(ev, state, node)
+    added = set_add(live, n.term)
+    if d is not None and d.ty == T.NAME:
+        inside = set_has(live)[d.term]
+        write_ref(state, ref, SymVal(live.ty, z3.If(inside, live.term, added.term)))
+    elif d is not None and d.ty == T.TOpt(T.NAME):
+        inner = T.acc(d.ty, 'val')(d.term)
+        inside = z3.And(z3.Not(T.opt_is_none(d.ty, d.term)), set_has(live)[inner])
+        write_ref(state, ref, SymVal(live.ty, z3.If(inside, live.term, added.term)))
+    else:
+        write_ref(state, ref, added)
     return n
+
+
+@qualified('cell_type_mapper.utils.utils.mkstemp_clean')
+def q_mkstemp_clean(ev, state, node):
+    """a fresh file name under `dir` (utils.py:81: tempfile.mkstemp, handle closed, file removed
+    unless asked otherwise; callers write it later)"""
+    for k in node.keywords:
+        if k.arg != 'dir':
+            try:
+                ev.eval(state, k.value)
+            except Unsupported:
+                if not ev.ctx.lenient:
+                    raise
+    return _new_scratch_entry(ev, state, node, 'tmpfile')
 
 
 @qualified('cell_type_mapper.utils.utils._clean_up')
